@@ -575,7 +575,12 @@ class UnitDatabase(Singleton):
             caption=caption,
         )
 
+        if category in self.categories_to_quantity_types:
+            # The category is being replaced: quantities cached for it still refer to the old definition.
+            self.quantities_cache.clear()
         self.categories_to_quantity_types[category] = info
+        # Verdicts memoised by CheckCategoryUnit may no longer hold.
+        self._category_unit_valid.clear()
         return info
 
     def IsValidCategory(self, category: str) -> bool:
